@@ -520,8 +520,8 @@ parenthesised commas, span lines, are empty), then
   which is no token for the reference.
 The relation between the two bookkeepings is `Lemmas.MacroTameSpec.Rel`: in the list rssl is scanning, every
 token's hide set contains the names of the disabled entries, and the tokens that name enabled macros have exactly
-that hide set.  A derivation exists for every input accepted by the decision procedure `tameRun`
-(`expand_refines_spec_decided`) and for every input over a table of object-like macros (`object_like_refines_spec`); the
+that hide set.  A derivation exists exactly for the inputs accepted by the decision procedure `tameRun`
+(`tame_class_is_decided`), in particular for every input over a table of object-like macros (`object_like_refines_spec`); the
 side conditions of `Tame` exclude the deviation classes `differs_*` below, and only those were found necessary:
 replacement lists without `##` (`WFMacro.noConcat`; `paste_*` treat `##`), what an argument expands to names no enabled
 macro (`OnlyDisabled`), no invocation spans the end of an expanded replacement list (`NoFire`), a function-like name
@@ -555,6 +555,18 @@ theorem expand_refines_spec_decided (defs : List Macro) (toks out : List PTok) (
     ∃ fuel' r, expand (defs.map ofMacro) fuel' (plain (ppTokens toks)) = .ok r ∧ r.map (·.tok) = ppTokens out :=
   expand_refines_spec defs toks out hwf
     (tameRun_sound fuel _ _ _ (by simpa [entryNames, allEnabled, List.map_map, Function.comp_def] using hnd) h)
+
+
+/-- **tame_class_is_decided.** The class of `expand_refines_spec` is exactly what `tameRun` accepts: for a table with
+pairwise distinct names, a token list has a tame expansion `out` iff `tameRun` returns `out` for some fuel. -/
+theorem tame_class_is_decided (defs : List Macro) (toks out : List PTok) (hnd : (defs.map (·.name)).Nodup) :
+    Tame (allEnabled defs) toks out ↔ ∃ fuel, tameRun fuel (allEnabled defs) toks = some out := by
+  constructor
+  · intro h
+    obtain ⟨f, hf⟩ := tameRun_complete h
+    exact ⟨f, hf f (Nat.le_refl _)⟩
+  · rintro ⟨f, hf⟩
+    exact tameRun_sound f _ _ _ (by simpa [entryNames, allEnabled, List.map_map, Function.comp_def] using hnd) hf
 
 /-- **object_like_refines_spec.** Object-like macros in full: for every table of object-like macros (pairwise
 distinct names, replacement lists without `##`) -- with replacement lists that mention other macros and themselves,
